@@ -50,6 +50,7 @@ type natEntry struct {
 
 // natUplinkGeneric is used for passing information about relay uplink to the relay goroutine.
 type natUplinkGeneric struct {
+	state          *atomic.Pointer[net.UDPConn]
 	clientName     string
 	clientAddrPort netip.AddrPort
 	natConn        *net.UDPConn
@@ -373,6 +374,7 @@ func (s *UDPNATRelay) recvFromServerConnGeneric(ctx context.Context, lnc *udpRel
 
 				s.wg.Go(func() {
 					s.relayServerConnToNatConnGeneric(ctx, natUplinkGeneric{
+						state:          &entry.state,
 						clientName:     clientInfo.Name,
 						clientAddrPort: clientAddrPort,
 						natConn:        natConn,
@@ -473,6 +475,13 @@ func (s *UDPNATRelay) relayServerConnToNatConnGeneric(ctx context.Context, uplin
 				zap.Duration("natTimeout", uplink.natTimeout),
 				zap.Error(err),
 			)
+		}
+
+		// Stop swaps the session state before expiring natConn's read deadline.
+		// If that happened while the deadline was being re-armed above, expire it again,
+		// or the downlink would keep Stop waiting for a full NAT timeout.
+		if uplink.state.Load() != uplink.natConn {
+			_ = uplink.natConn.SetReadDeadline(conn.ALongTimeAgo)
 		}
 
 		s.putQueuedPacket(queuedPacket)
